@@ -29,7 +29,7 @@ CHECKS.update({
  'C08': dict(text="Theorems C08_* (Coq): the (vertex, list-position) cursor model of Edges::constEdgeIterator - begin(), end(), operator++, operator*, operator== - enumerates exactly the "
                   "flattened adjacency lists (directed, ANY graph with size-many lists, zero vertices included) resp. their i<=j half (undirected, under the symmetric invariant), "
                   "begin()==end() iff no edge, range-for yields 0..n-1, and the users (in-degrees, adjacency matrix) are defined with the right values. Tied to /repo by running every "
-                  "small graph of all eight classes plus random histories, comparing vertex sequence, edge multiset, pre/post-increment and repeated traversals.",
+                  "small graph of all eight classes plus random histories, comparing vertex sequence, edge multiset, pre/post-increment (edge and vertex iterators) and repeated traversals.",
              note=TB + "The cursor abstracts std::list iterators as list positions; pre/post-increment agreement and repeatability are trivial in a pure model and are checked on the implementation only.",
              tech="Coq proof about the iterator cursor model + exhaustive small-graph correspondence", ref="DESIGN.md §6 C08"),
 })
@@ -56,7 +56,8 @@ CHECKS.update({
                   "and is true exactly when sizes, edge sets and labels agree; for ANY two valid histories the verdict equals 'the two histories denote the same graph' (so insertion "
                   "order and past content cannot matter); reflexive, symmetric. C06_undirected_eq / C06_undirected_histories / C06_multigraph_histories / C06_weighted_histories / "
                   "C06_multi_weighted_states: the same for the undirected class, both multigraphs and both weighted graphs (verdict = equality of the spec maps; totals, which operator== "
-                  "does not compare, are then equal anyway), and the verdict is literally the executable spec verdict the test's oracle computes. Tied to /repo by pairs of histories on all eight classes: different constructions of one target, "
+                  "does not compare, are then equal anyway), and the verdict is literally the executable spec verdict the test's oracle computes. For weighted graphs with arbitrary "
+                  "double weights (where the running total depends on the history) pairs of histories of one graph are compared against a Flocq-based model of the stored weights. Tied to /repo by pairs of histories on all eight classes: different constructions of one target, "
                   "one-edge/one-label/size differences, random pairs; ==, != both ways, copies, assignment, independence of copies.",
              note=TB + "All eight classes use the same base-class operator== (graph_eqb in the model). Independence of copies is a property of C++ value semantics: "
                   "identity in the model, checked on the implementation only.",
@@ -157,8 +158,8 @@ CHECKS.update({
  'C15': dict(text="Theorems C15_truncated_binary (Coq): for every record list, label width and EVERY cut offset, the repaired loader returns exactly the graph of the complete records before "
                   "the cut; C15_text_loaders_total: for EVERY byte string both text loaders end with a graph or a C++ exception (the model never reaches an unchecked index); "
                   "C15_text_loader_invents_nothing / C15_name_loader_invents_nothing: every edge of a returned graph comes from a non-comment line whose first two tokens denote its endpoints. The pinned "
-                  "loader's invented edge is kept as a kernel-checked example. Tie: every cut offset of generated binary files and a separate malformed-text stream, under ASan+UBSan; a "
-                  "crash or sanitizer report is reported as a violation with the input as replay.",
+                  "loader's invented edge is kept as a kernel-checked example. Tie: every cut offset of generated binary files and a separate malformed-text stream, under ASan+UBSan and _GLIBCXX_ASSERTIONS; a "
+                  "crash, sanitizer report or failed library assertion is reported as a violation with the input as replay.",
              note=TB + "Memory safety itself is a runtime notion: the model proves definedness of its checked accesses; the sanitizer-instrumented correspondence exhibits the rest. "
                   "Vertex indices above 3000 are outside the harness ('small enough to allocate').",
              tech="Coq proof (parser on all prefixes; totality of the text loaders) + exhaustive cut-offset and malformed-input correspondence under sanitizers", ref="DESIGN.md §6 C15"),
